@@ -23,6 +23,8 @@ PROP_UNITS = {
     'C06': {'verus': ['float_fbig_to_int', 'float_conv']},
     # C14: AbsOrd / NumOrd of floats of one base go through repr_cmp_same_base (unit float_cmp)
     'C14': {'verus': ['float_cmp']},
+    # C17: the raw-pointer shift kernel (out-of-bounds writes are Kani pointer checks)
+    'C17': {'kani': ['int_shift']},
     # C08: decode is proved complete by Kani (base_bit); float_from_prim composes it
     'C08': {'kani': ['base_bit'], 'verus': ['float_repr_round'],
             'undecided': ['float parser and printer (str / core::fmt)', 'convert_base (ln/exp at doubled precision, f32 '
